@@ -6,8 +6,11 @@ gromov_hausdorff.py, ``has_rand prog_f = false``) per entry point is kernel-chec
 (``extra_obligations``).  coq/Properties/C19.v proves the checker sound for every program.
 
 Dynamic half (the tie and the failing-input search): for every public entry point, deep snapshots of
-every argument before / after each call, repeated + interleaved calls, list / int-array / float-array
-forms, seeded mGH runs, plotting on the Agg backend.  ``predicate`` = all of that for one case."""
+every argument before / after each call, repeated + interleaved calls, five equal-valued forms of a
+diagram (float64 / int64 / int32 arrays, nested list, strided float64 view) also under non-default
+weight / kernel / range parameters that make intermediate values fractional, one estimator object swept
+over all forms, landscape tools on landscapes that already share the common grid, seeded mGH runs,
+plotting on the Agg backend.  ``predicate`` = all of that for one case."""
 import json
 import math
 import os
@@ -33,7 +36,9 @@ RULE = ("static: one regenerated obligation per public entry point of the curren
         "without re-fitting; fitted state and output must agree between the forms and when the whole sweep is "
         "repeated on the same object); forms are compared at relative tolerance 1e-12 (sliced Wasserstein 1e-9), "
         "and a form that raises while its wider sibling (float64 for the strided view, int64 for int32) is accepted "
-        "counts as a representation dependence + call-order families (same diagrams x secondary parameters, equal "
+        "counts as a representation dependence + landscape tools (lc_approx / average_approx / snap_pl) on approximate "
+        "landscapes that already live on the common grid (one shared explicit grid; first landscape covers the others) "
+        "+ call-order families (same diagrams x secondary parameters, equal "
         "total size with different splits, both argument orders) evaluated forward / reversed / shuffled in fresh "
         "interpreters and 3x with junk allocations in between, results identical at tolerance 0; a case is non-trivial when the call returned a value "
         "(no exception) on at least one non-empty array/list argument, so that there was something to "
@@ -65,6 +70,8 @@ ASSUMPTIONS = [
     "code under `if ... PERSIM_VERIF ...` is an add-only verification hook and is skipped",
     "the IR abstracts values: absence of writes is proved, equality of repeated results and "
     "representation independence are tested by the dynamic half only",
+    "'integer arrays' of the property text include int32 as well as int64 arrays, 'floating-point arrays' include "
+    "non-contiguous float64 views; float32 / unsigned / Fortran-ordered inputs are not generated",
 ]
 COQ_DEPS = ["Proofs/EffectP.vo"]
 HASHSEEDS = ["0"]
@@ -408,7 +415,15 @@ def _eps():
             pl = PersLandscapeExact(dgms=g1, hom_deg=0)
             return [g1, pl], (lambda: ltools.vectorize(pl, num_steps=c.get("num_steps", 15)).values)
         kw = dict(hom_deg=0, num_steps=c.get("num_steps", 15))
-        a, b = PersLandscapeApprox(dgms=g1, **kw), PersLandscapeApprox(dgms=g2, **kw)
+        kwa = dict(kw)
+        fin = [x for d in c["dgms"][:2] for r in d for x in r if x != "inf"]
+        if c.get("grid") in ("shared", "first_covers") and fin:
+            # "shared": every landscape on ONE explicit grid (the usual way to make them comparable);
+            # "first_covers": the first landscape already lives on the common grid of the list, the others do not
+            kwa.update(start=float(min(fin)), stop=float(max(fin)))
+            if c["grid"] == "shared":
+                kw = kwa
+        a, b = PersLandscapeApprox(dgms=g1, **kwa), PersLandscapeApprox(dgms=g2, **kw)
         pls = [a, b]
         if op == "snap_pl":
             return [g1, g2, pls], (lambda: [p.values for p in ltools.snap_pl(pls)])
@@ -1238,7 +1253,10 @@ def _make(rng, ep, cls, variant=None):
                  flatten=rng.random() < 0.5, num_steps=rng.choice([8, 15]))
     elif ep == "landscapes.tools":
         c.update(dgms=[d1 or _dgm(rng, 2, integral), d2], num_steps=rng.choice([9, 15]),
-                 op=rng.choice(["death_vector", "vectorize", "snap_pl", "lc_approx", "average_approx"]))
+                 op=rng.choice(["death_vector", "vectorize", "snap_pl", "lc_approx", "average_approx"]),
+                 grid=rng.choice(["own", "own", "shared", "first_covers"]))
+        if variant is not None:
+            c.update(op=["lc_approx", "average_approx", "snap_pl"][variant % 3], grid=["shared", "first_covers"][variant % 2])
     elif ep == "landscapes.plot":
         c.update(dgms=[d1 or _dgm(rng, 2, integral)], kind=rng.choice(["exact", "approx"]), op=rng.choice(["simple", "simple", "3d"]), reps=["float"])
     elif ep == "plot_diagrams":
@@ -1433,6 +1451,10 @@ def generate(rng, tier):
     for ep in PARAM_EPS:
         for v in range(3 if tier == "quick" else 42):
             cases.append(_make(rng, ep, "integral_params", variant=v))
+    # landscape tools on landscapes that already live on the common grid (nothing to re-grid): every
+    # combination of {lc_approx, average_approx, snap_pl} x {one shared explicit grid, first landscape covers}
+    for v in range(6 if tier == "quick" else 36):
+        cases.append(_make(rng, "landscapes.tools", ["random", "integral", "dupes"][v // 6 % 3], variant=v))
     for kind in ORDER_KINDS:
         for _ in range(1 if tier == "quick" else 4):
             cases.append(_order_case(rng, kind))
